@@ -1,11 +1,13 @@
 -- written by bin/mkroundpins from /repo at commit 472862f
 namespace Mps.SrcPins.SrcDoernerKeygen
 def f_keygen : List String := [
+  "decl:ConfigReceiver b8afe7ccb6e44f637c0ba5fd",
   "ConfigReceiver.Validate 1791a61998587cbee6ba9e6e",
   "ConfigReceiver.UnmarshalCBOR 964675139483837b71704611",
   "ConfigReceiver.Group 9c2eaacd6a91fe93cc9ad321",
   "ConfigReceiver.Derive ccf60e9f2e34bc39e7536f33",
   "ConfigReceiver.DeriveBIP32 8a9019eb76e0b8db3ddc1a70",
+  "decl:ConfigSender b210d93070403929c3aa5cf3",
   "ConfigSender.Validate 1791a61998587cbee6ba9e6e",
   "ConfigSender.UnmarshalCBOR eb1ff21df4b223fe23b4f5aa",
   "ConfigSender.Group 9c2eaacd6a91fe93cc9ad321",
@@ -14,7 +16,9 @@ def f_keygen : List String := [
   "ConfigSender.DeriveBIP32 612f3311e66758b7466cc426"
 ]
 def f_round1R : List String := [
+  "decl:message1R 9f6e2db41af79334aa9b7203",
   "message1R.RoundNumber b4fc1b1a37769dc302afcc74",
+  "decl:round1R e5c6e1b923d767cc8ee3e8cb",
   "round1R.VerifyMessage 802d63134a23acda92d7513c",
   "round1R.StoreMessage 802d63134a23acda92d7513c",
   "round1R.Finalize 5ec5aeb29379a2cdaf3c87f6",
@@ -22,7 +26,9 @@ def f_round1R : List String := [
   "round1R.Number b4fc1b1a37769dc302afcc74"
 ]
 def f_round1S : List String := [
+  "decl:message1S ebeaa84a4efba41294b34f51",
   "message1S.RoundNumber afbf3b2d17fee1f6ce5e2421",
+  "decl:round1S d62e097e95d6274c1e8ca979",
   "round1S.VerifyMessage 4fc0db85376165cfdb706118",
   "round1S.StoreMessage eb1decda7b1f81df96a0859d",
   "round1S.Finalize f71fb46ab535e0c1e8b1f28a",
@@ -30,7 +36,9 @@ def f_round1S : List String := [
   "round1S.Number b4fc1b1a37769dc302afcc74"
 ]
 def f_round2R : List String := [
+  "decl:message2R d99b990521f1074767c16671",
   "message2R.RoundNumber afbf3b2d17fee1f6ce5e2421",
+  "decl:round2R d1c72c7ee322361bd6ce345e",
   "round2R.VerifyMessage 17add833f40bf68a3c7f4daa",
   "round2R.StoreMessage c257d7b8ac268b6e0a52c3d2",
   "round2R.Finalize 4d98b55447dbc3322267dd8b",
@@ -38,7 +46,9 @@ def f_round2R : List String := [
   "round2R.Number afbf3b2d17fee1f6ce5e2421"
 ]
 def f_round2S : List String := [
+  "decl:message2S 400c9ff277fd6b0ae8c6c2a3",
   "message2S.RoundNumber 79c98029d401cf189a9ed9a5",
+  "decl:round2S cb1ae5e6d7054aca10ea6f9c",
   "round2S.VerifyMessage bc532dd7f497d303339bad53",
   "round2S.StoreMessage d55bcad1bc83ce6789a22f80",
   "round2S.Finalize 4577197e6a9d44d6eb665043",
@@ -46,7 +56,9 @@ def f_round2S : List String := [
   "round2S.Number afbf3b2d17fee1f6ce5e2421"
 ]
 def f_round3R : List String := [
+  "decl:message3R 765cf14435e577cc8289fecb",
   "message3R.RoundNumber 79c98029d401cf189a9ed9a5",
+  "decl:round3R a1b5ec6ff795558826a05d8f",
   "round3R.VerifyMessage b7c63fb395b090fe3fab57b4",
   "round3R.StoreMessage f941916515fe6a76bd1ee090",
   "round3R.Finalize 4044f790af16873d36c69d71",
@@ -54,6 +66,7 @@ def f_round3R : List String := [
   "round3R.Number 79c98029d401cf189a9ed9a5"
 ]
 def f_round3S : List String := [
+  "decl:round3S 85a43b8dff1ef0c6ec384ec9",
   "round3S.VerifyMessage 97bb650cdd407d8dd631b9c2",
   "round3S.StoreMessage f1654111d2aa4c8146f41a75",
   "round3S.Finalize b945bf4ae3d3e914de6ecfa8",
